@@ -57,6 +57,10 @@ func (p Parser) Parse(src io.Reader) (f File) {
 		f.Diagnostics = cr.diagnostics
 		f.Comments = cr.comments
 		f.TotalLines = cr.lineno
+		// YAML errors found at the end of the stream are reported for the line after the last one.
+		if f.Error.Err != nil && f.TotalLines > 0 && f.Error.Line > f.TotalLines {
+			f.Error.Line = f.TotalLines
+		}
 	}()
 
 	f.IsRelaxed = !p.isStrict
